@@ -244,6 +244,9 @@ func (s *Properties) Merge(other *Properties) {
 	}
 	for otherKey, otherValue := range other.Map {
 		s.Map[otherKey] = otherValue
+
+		// A key taken over from other is live again: it must not stay in the deleted properties index
+		delete(s.Deleted, otherKey)
 	}
 
 	if len(other.Modified) > 0 && s.Modified == nil {
